@@ -354,6 +354,26 @@ pub fn check_tid(ctx: &mut Ctx, x: u128) {
                     bit_faults.push(k);
                 }
             }
+            // two bits at once (a comparison that folds words onto each other cancels such pairs), and
+            // whole words swapped or repeated
+            for k in 0..96u32 {
+                for d in [1u32, 8, 16, 24, 32, 48, 64] {
+                    if k + d < 96 {
+                        let o = TransactionId::from(x ^ (1u128 << k) ^ (1u128 << (k + d)));
+                        if o == t || set.contains(&o) {
+                            bit_faults.push(1000 + k * 100 + d);
+                        }
+                    }
+                }
+            }
+            let low = x & ((1u128 << 96) - 1);
+            let (w0, w1, w2) = (low & 0xffff_ffff, (low >> 32) & 0xffff_ffff, (low >> 64) & 0xffff_ffff);
+            for (i, y) in [(w1 << 64) | (w2 << 32) | w0, (w0 << 64) | (w1 << 32) | w2, (w2 << 64) | (w0 << 32) | w1, (low >> 48) | ((low & 0xffff_ffff_ffff) << 48)].into_iter().enumerate() {
+                let o = TransactionId::from(y);
+                if y != low && (o == t || set.contains(&o)) {
+                    bit_faults.push(9000 + i as u32);
+                }
+            }
         }
         // the id through every other way a builder comes to carry it: responses made from the parsed
         // request (success / error), write_into, into_owned, clone
